@@ -1,34 +1,66 @@
-//! Child-process entry points (for runs that need their own environment / thread pool).
-pub fn main(_args: &[String]) {
-    eprintln!("no child mode yet");
-    std::process::exit(2);
+//! Child-process entry point: run a program in a fresh process (own environment, own address
+//! space, own cut-off configuration) and print every observable as JSON.
+use crate::engine;
+use serde_json::{json, Value};
+use std::io::Read;
+
+pub fn render_outputs(outs: &[egglog::CommandOutput]) -> Vec<String> {
+    outs.iter().map(|o| match o {
+        egglog::CommandOutput::RunSchedule(r) => { let mut m: Vec<(String, usize)> = r.num_matches_per_rule.iter().map(|(k, v)| (k.to_string(), *v)).collect(); m.sort();
+            format!("run-report iterations={} updated={} matches={:?}", r.iterations.len(), r.updated, m) }
+        egglog::CommandOutput::OverallStatistics(r) => { let mut m: Vec<(String, usize)> = r.num_matches_per_rule.iter().map(|(k, v)| (k.to_string(), *v)).collect(); m.sort(); format!("stats matches={:?}", m) }
+        other => other.to_string(),
+    }).collect()
 }
 
-pub fn bench() {
-    let t = std::time::Instant::now();
-    for _ in 0..50 { let _ = egglog::EGraph::default(); }
-    eprintln!("50x EGraph::default(): {:?}", t.elapsed());
-    let mut eg = egglog::EGraph::default();
-    let t = std::time::Instant::now();
-    crate::engine::run(&mut eg, "(datatype K (K0) (K1))\n(function f (K) i64 :merge (min old new))\n(K0)\n(K1)");
-    for i in 0..50 { crate::engine::run(&mut eg, &format!("(set (f (K0)) {i})")); }
-    eprintln!("50x set: {:?}", t.elapsed());
-    let t = std::time::Instant::now();
-    for _ in 0..50 { crate::engine::run(&mut eg, "(extract (f (K0)))"); }
-    eprintln!("50x extract: {:?}", t.elapsed());
-    let t = std::time::Instant::now();
-    for _ in 0..50 { let _ = eg.clone(); }
-    eprintln!("50x clone: {:?}", t.elapsed());
-    let t = std::time::Instant::now();
-    for _ in 0..50 { let _ = egglog::EGraph::default().with_num_threads(4); }
-    eprintln!("50x EGraph 4 threads: {:?}", t.elapsed());
-}
-
-pub fn bench2() {
-    for threads in [1usize, 4] {
-        let t = std::time::Instant::now();
-        let mut rng = crate::rng::Rng::new(5);
-        for _ in 0..20 { let c = super::c05::gen_case(&mut rng, super::c05::Kind::Min, threads); let _ = super::c05::run_case(&c); }
-        eprintln!("20 cases threads={threads}: {:?}", t.elapsed());
+pub fn run_job(job: &Value) -> Value {
+    let threads = job["threads"].as_u64().unwrap_or(1) as usize;
+    let mut eg = match job["mode"].as_str().unwrap_or("plain") {
+        "term" => egglog::EGraph::new_with_term_encoding(),
+        "proofs" => egglog::EGraph::new_with_proofs(),
+        _ => egglog::EGraph::default(),
+    }.with_num_threads(threads);
+    if let Some(false) = job["seminaive"].as_bool() { eg.seminaive = false; }
+    let mut outcomes = vec![]; let mut outputs = vec![];
+    for ch in job["chunks"].as_array().cloned().unwrap_or_default() {
+        match engine::run_outputs(&mut eg, ch.as_str().unwrap_or("")) {
+            Ok(o) => { outcomes.push("ok".to_string()); outputs.push(render_outputs(&o)); }
+            Err(e) => { outcomes.push(e); outputs.push(vec![]); }
+        }
     }
+    json!({"outcomes": outcomes, "outputs": outputs, "dump": engine::canon(&eg)})
 }
+
+pub fn main(_args: &[String]) {
+    let mut s = String::new();
+    std::io::stdin().read_to_string(&mut s).unwrap();
+    let job: Value = serde_json::from_str(&s).unwrap_or(json!({}));
+    println!("{}", run_job(&job));
+}
+
+/// spawn this binary as a child with the given extra environment
+pub fn spawn(job: &Value, env: &[(&str, &str)], pad_args: usize) -> Result<Value, String> {
+    use std::io::Write;
+    use std::process::{Command, Stdio};
+    let exe = std::env::current_exe().map_err(|e| e.to_string())?;
+    let mut cmd = Command::new(exe);
+    cmd.arg("child");
+    for i in 0..pad_args { cmd.arg(format!("--pad{}", "x".repeat(i * 37 % 200))); }
+    for (k, v) in env { cmd.env(k, v); }
+    let mut ch = cmd.stdin(Stdio::piped()).stdout(Stdio::piped()).stderr(Stdio::null()).spawn().map_err(|e| e.to_string())?;
+    ch.stdin.take().unwrap().write_all(job.to_string().as_bytes()).map_err(|e| e.to_string())?;
+    // watchdog: a child that does not finish within the limit is a (replayable) hang
+    let limit: u64 = std::env::var("VERIF_CHILD_TIMEOUT_S").ok().and_then(|x| x.parse().ok()).unwrap_or(120);
+    let t0 = std::time::Instant::now();
+    loop {
+        match ch.try_wait() { Ok(Some(_)) => break, Ok(None) => {}, Err(e) => return Err(e.to_string()) }
+        if t0.elapsed().as_secs() > limit { let _ = ch.kill(); let _ = ch.wait(); return Err(format!("child did not terminate within {limit} s (hang)")); }
+        std::thread::sleep(std::time::Duration::from_millis(5));
+    }
+    let out = ch.wait_with_output().map_err(|e| e.to_string())?;
+    if !out.status.success() { return Err(format!("child exited with {:?}", out.status)); }
+    serde_json::from_slice(&out.stdout).map_err(|e| format!("bad child output: {e}"))
+}
+
+pub fn bench() {}
+pub fn bench2() {}
